@@ -30,6 +30,34 @@ func findSegmentWithID(seqNo int, segments []*playlist.MediaSegment, id int) (*p
 	return segments[index], index, len(segments) - index
 }
 
+// byteRangeStart returns the start of the byte range of a segment.
+// When it is not explicit, the range begins at the byte that follows
+// the range of the previous segment.
+func byteRangeStart(segments []*playlist.MediaSegment, index int) *uint64 {
+	var next uint64
+
+	for i := 0; i <= index; i++ {
+		seg := segments[i]
+		if seg.ByteRangeLength == nil {
+			next = 0
+			continue
+		}
+
+		start := next
+		if seg.ByteRangeStart != nil {
+			start = *seg.ByteRangeStart
+		}
+
+		if i == index {
+			return &start
+		}
+
+		next = start + *seg.ByteRangeLength
+	}
+
+	return nil
+}
+
 func dateTimeOfPreloadHint(pl *playlist.Media) *time.Time {
 	if len(pl.Segments) == 0 {
 		return nil
@@ -342,7 +370,7 @@ func (d *clientStreamDownloader) fillSegmentQueue(
 	v := pl.MediaSequence + segPos
 	d.curSegmentID = &v
 
-	byts, err := d.downloadSegment(ctx, seg.URI, seg.ByteRangeStart, seg.ByteRangeLength)
+	byts, err := d.downloadSegment(ctx, seg.URI, byteRangeStart(pl.Segments, segPos), seg.ByteRangeLength)
 	if err != nil {
 		return err
 	}
